@@ -29,8 +29,10 @@ class KF:
     attributed to the finding only if the predicate holds AND the same signature does not occur when the
     ablated trace is executed (causal check).  Optional `model(trace, violation)` returns True when the
     observed wrong value equals what the finding's defect model predicts (stronger attribution)."""
-    def __init__(self, kid, predicate, ablate=None, what=''):
-        self.kid, self.predicate, self.ablate, self.what = kid, predicate, ablate, what
+    def __init__(self, kid, predicate, ablate=None, what='', explain=None):
+        # explain(trace) -> trace whose reference EMULATES the finding's defect; the violation is attributed only if the
+        # emulating reference agrees with the observed behaviour (no violation of that law any more)
+        self.kid, self.predicate, self.ablate, self.what, self.explain = kid, predicate, ablate, what, explain
 
 
 class Check:
@@ -153,6 +155,15 @@ class Runner:
                         ablated_cache[kid] = {sig(x) for x in ar['violations']} if st == 'ok' else None
                 sigs = ablated_cache[kid]
                 if sigs is not None and sig(v) not in sigs:
+                    if m.explain is not None:
+                        ek = ('explain', kid)
+                        if ek not in ablated_cache:
+                            et = m.explain(copy.deepcopy(trace))
+                            st, er = self.exec_trace(et) if et is not None else ('none', None)
+                            ablated_cache[ek] = {x.get('law') for x in er['violations']} if st == 'ok' else None
+                        laws = ablated_cache[ek]
+                        if laws is None or v.get('law') in laws:
+                            continue      # the defect model does not explain what was observed: not this finding
                     hit = kid
                     break
             if hit:
